@@ -14,11 +14,23 @@ SPEC = {
     "harness_bin": "c05",
     "eq": vlib.hexfloat_eq(1e-12),
     "spec_check": vlib.spec_via_driver("drv_c05"),
-    "nontrivial": lambda r, a: r.startswith("matrix") and a.startswith("ok"),
+    "nontrivial": lambda r, a: (r.startswith("matrix") or r.startswith("applymat")) and a.startswith("ok"),
     "rule": "matrix() of every registry gate (44 kinds) at generated parameters (0, +-pi/2, +-pi, >2pi, 1e-9, negative, random), "
             "of random nested combinators (C, Kron, Composite with sub-gate placements, Loop; depth<=3, <=3 qubits quick / <=4 thorough), "
-            "and of reference-parameter gates whose cell is changed between matrix() calls; implementation vs Lean model to 1e-12 (A), "
-            "implementation vs documented unitary to 1e-9 and unitarity (B). Non-trivial = a matrix request that returned; distinct = distinct term.",
+            "and of reference-parameter gates whose cell is changed between matrix() calls (every direct/Rc/pointer pattern, with a priming call); "
+            "'placed' stream: a sub-gate on 4 qubits (12 shapes: Kron trees 1+1+1+1 / 2+2 / 1+2+1 / 3+1 / 1+3, C C CX, C Kron, C C Kron, nested Composite "
+            "via add_gate, Composite via from_string, Loop over either) on EVERY operand order of a 4-qubit Composite (24, all shapes) and every ordered "
+            "selection of 4 out of 5 qubits (120; all shapes where the interior is out of order between min and max such as [0,2,1,3], [1,3,2,4], 3 shapes "
+            "elsewhere quick / all thorough), and a sub-gate on 5 qubits (6 shapes) on 24 orders quick / all 120 thorough, the outer term being a bare "
+            "Composite, a Composite with a sub-gate before and after, a Loop, or a Loop in a Composite (matrices <= 32x32); "
+            "implementation vs Lean model to 1e-12 (A), implementation vs documented unitary (ordered product of the documented unitaries of the sub-gates "
+            "embedded on their local qubits) to 1e-9 and unitarity (B). "
+            "'layout' stream: Gate::apply_mat / apply_mat_slice of every registry gate, 15 fixed and some random combinators on ONE logical matrix "
+            "(2^k or 2*2^k rows, 2 or 3 columns, non-symmetric entries) held row-major, column-major (from_shape_vec(.f()), zeros(.f()) assigned, "
+            ".t().to_owned(), reversed_axes()), as owned arrays with column stride 2 / row stride 2 (slice_move of a wider / taller / column-major array), "
+            "with rows reversed (negative stride), and as column-major and strided views (the elements outside the view must stay untouched): "
+            "every answer = (matrix() (x) 1) * M of the Lean model to 1e-12 (A) and = (documented unitary (x) 1) * M to 1e-9 (B). "
+            "Non-trivial = a matrix or applymat request that returned; distinct = distinct request.",
 }
 
 
